@@ -8,6 +8,8 @@ T8d  BINARY/FRACTIONAL branch: intermediate dtype, the float-dtype requirement o
      to combine a FRACTIONAL segmentation without rescaling.
 T8e  LABELMAP branch, `if need_remap:`: size and dtype of the remapping table and the value of one cell (both loops).
 T8f  `get_pixels_by_source_frame`: the checks every requested source frame number must pass.
+T8g  `_check_numpy_value_representation`: dispatch on the dtype kind and comparison with the dtype's largest value.
+T8h  effect summaries (rebinding vs in-place, sharing of right-hand sides) of the three functions a read runs through.
 
 dtype codes (shared with Model/SegRead.lean `DType.ofCode`): uintN -> N, intN -> 100+N, floatN -> 200+N, bool -> 1.
 
@@ -597,3 +599,39 @@ def build_T8h(tree):
 
 
 TARGETS['T8h'] = {'file': 'seg/sop.py', 'build': build_T8h, 'imports': ['HdVerif.Model.Effects']}
+
+
+class _InTuple(ast.NodeTransformer):
+    """`x in (a, b, ...)` -> `x == a or x == b or ...` (literal tuples only)"""
+    def visit_Compare(self, node):
+        node = self.generic_visit(node)
+        if len(node.ops) == 1 and isinstance(node.ops[0], ast.In) and isinstance(node.comparators[0], (ast.Tuple, ast.List)):
+            elts = node.comparators[0].elts
+            if elts and all(isinstance(e, ast.Constant) for e in elts):
+                return ast.BoolOp(op=ast.Or(), values=[ast.Compare(left=copy.deepcopy(node.left), ops=[ast.Eq()], comparators=[e])
+                                                       for e in elts])
+        return node
+
+
+def build_T8g(tree):
+    """`_check_numpy_value_representation`: the dispatch on the dtype kind and the comparison with the dtype's largest
+    value; `np.finfo(dtype).max` / `np.iinfo(dtype).max` are parameters (supplied by the model's table of maxima)."""
+    fn = find_func(tree, '_check_numpy_value_representation')
+    if [a.arg for a in fn.args.args] != ['max_val', 'dtype']:
+        raise Unsupported('_check_numpy_value_representation no longer takes (max_val, dtype)')
+    body = strip_doc(fn.body)
+    stmts = []
+    for st in _clean(body):
+        if isinstance(st, ast.Assign) and _norm(st) == 'dtype=dtype':
+            continue                      # dtype = np.dtype(dtype)
+        stmts.append(_InTuple().visit(st))
+    stmts.append(ast.parse('return max_val').body[0])
+    for x in stmts:
+        ast.fix_missing_locations(x)
+    attrs = {'dtype.kind': ('str', 'kind'), 'np.finfo(dtype).max': ('int', 'finfoMax'), 'np.iinfo(dtype).max': ('int', 'iinfoMax')}
+    text = translate_block(stmts, 'checkReprT', [('max_val', 'int')], attrs,
+                           doc='`_check_numpy_value_representation` (whole body; result = the accepted value)')
+    return text, span_sha(body)
+
+
+TARGETS['T8g'] = {'file': 'seg/sop.py', 'build': build_T8g}
